@@ -315,7 +315,10 @@ def show_attributes(self, out, prefix, attributes_level, print_width):
                 else:
                     is_first = True
                     for block in textwrap.wrap(
-                        value[1:-1], width=print_width - 2 - len(indent)
+                        value[1:-1],
+                        width=print_width - 2 - len(indent),
+                        break_long_words=False,
+                        break_on_hyphens=False,
                     ):
                         if is_first:
                             print(
